@@ -35,6 +35,7 @@ func runC06(c *core.Ctx) {
 	c.Rule("R8", "a merge is treated as a full-state local CAS only for a CAS on a version that was read (flag = casVersion > 0, passed on unchanged)", 2)
 	c.Rule("R9", "push/pull sends the stored value with its tombstones, freshly encoded", 2)
 	c.Rule("R10", "every queued update is consumed by its key's worker only; watcher lists are edited by append / slice-out only", 2)
+	c.Rule("R11", "a watcher's wake-up is consumed only by the select that reads the value next (no notification is dropped after the read)", 2)
 	c.Rule("R7", "ring Mergeables accept an incoming entry by the same LWW table whatever the origin (local CAS or gossip)", 3)
 	pkg := c.Prog.Pkg("kv/memberlist")
 	if pkg == nil {
@@ -51,6 +52,7 @@ func runC06(c *core.Ctx) {
 	c03ComputeNewValue(c, "R8")
 	c04LocalState(c, "R9")
 	c06Queues(c, pkg)
+	c06Wakeups(c, pkg)
 }
 
 // c06Invalidates (R6): a queued broadcast is dropped in favour of a newer one only when that one is for
@@ -740,4 +742,100 @@ func c06Queues(c *core.Ctx, pkg *packages.Package) {
 	}
 	c.Check(len(recvSites) == 0 && nRecv >= 1, "R10", "queue:receivers", pos, fmt.Sprintf("%d receive sites on worker channels, all inside processValueUpdate; others: %v", nRecv, recvSites), nRecv)
 	c.Check(len(stores) == 0, "R10", "watchers:no-element-store", pos, fmt.Sprintf("no element of a watcher list ([]chan string) is overwritten in place: %v", stores), 1)
+}
+
+// c06Wakeups (R11): WatchKey / WatchPrefix own a buffered channel that collects "changed" notifications.
+// A notification that arrives after the value was read refers to a newer value, so it must stay queued
+// until the loop's select takes it and reads again: the channel is received from at exactly one place,
+// the head of a select case, and that case reads the store before calling the callback.
+func c06Wakeups(c *core.Ctx, pkg *packages.Package) {
+	for _, name := range []string{"KV.WatchKey", "KV.WatchPrefix"} {
+		fn := an.FindFunc(pkg, name)
+		if fn == nil {
+			c.Miss("R11", "func="+name, "not found")
+			continue
+		}
+		c.Analysed(fn.String())
+		// the watcher's own channel: the local made in this function and appended to the watcher lists
+		var ch types.Object
+		fn.InspectShallow(func(n ast.Node) bool {
+			if as, ok := n.(*ast.AssignStmt); ok && as.Tok == token.DEFINE && len(as.Lhs) == 1 && len(as.Rhs) == 1 {
+				if call, ok := as.Rhs[0].(*ast.CallExpr); ok {
+					if id, ok := call.Fun.(*ast.Ident); ok && id.Name == "make" {
+						if _, isChan := fn.Info().TypeOf(as.Rhs[0]).Underlying().(*types.Chan); isChan && ch == nil {
+							ch = fn.ObjOf(as.Lhs[0])
+						}
+					}
+				}
+			}
+			return true
+		})
+		if ch == nil {
+			c.Undec("R11", "func="+name, fn.Pos(), "the watcher's own channel (a local made here) was not found")
+			continue
+		}
+		var recvs []ast.Node
+		inHead := 0
+		readsThenCalls := false
+		fn.InspectDeep(func(n ast.Node) bool {
+			switch x := n.(type) {
+			case *ast.UnaryExpr:
+				if id, ok := an.Unparen(x.X).(*ast.Ident); ok && x.Op == token.ARROW && fn.ObjOf(id) == ch {
+					recvs = append(recvs, x)
+				}
+			case *ast.RangeStmt:
+				if id, ok := an.Unparen(x.X).(*ast.Ident); ok && fn.ObjOf(id) == ch {
+					recvs = append(recvs, x)
+				}
+			case *ast.CommClause:
+				if x.Comm == nil {
+					return true
+				}
+				if e := commRecvExpr(x.Comm); e != nil {
+					if id, ok := an.Unparen(e).(*ast.Ident); ok && fn.ObjOf(id) == ch {
+						inHead++
+						// the body reads the store (m.get) before it calls the callback parameter
+						var get, cb ast.Node
+						for _, st := range x.Body {
+							ast.Inspect(st, func(m ast.Node) bool {
+								if call, ok := m.(*ast.CallExpr); ok {
+									if o := an.Callee(fn.Info(), call); o != nil {
+										if fo, isFn := o.(*types.Func); isFn && an.PinnedName(fo) == "get" && get == nil {
+											get = call
+										}
+										if v, isVar := o.(*types.Var); isVar && cb == nil && v == fn.Obj.Type().(*types.Signature).Params().At(3) {
+											cb = call
+										}
+									}
+								}
+								return true
+							})
+						}
+						if get != nil && cb != nil && get.Pos() < cb.Pos() {
+							readsThenCalls = true
+						}
+					}
+				}
+			}
+			return true
+		})
+		c.Check(len(recvs) == 1 && inHead == 1 && readsThenCalls, "R11", "func="+name, fn.Pos(), fmt.Sprintf("the watcher's channel is received from at %d place(s), %d of them a select case that reads the store and then calls the callback (=%v)", len(recvs), inHead, readsThenCalls), 1)
+	}
+}
+
+// commRecvExpr returns the channel expression of a receive communication clause.
+func commRecvExpr(s ast.Stmt) ast.Expr {
+	var e ast.Expr
+	switch x := s.(type) {
+	case *ast.ExprStmt:
+		e = x.X
+	case *ast.AssignStmt:
+		if len(x.Rhs) == 1 {
+			e = x.Rhs[0]
+		}
+	}
+	if u, ok := an.Unparen(e).(*ast.UnaryExpr); ok && u.Op == token.ARROW {
+		return u.X
+	}
+	return nil
 }
